@@ -654,7 +654,7 @@ def ref_step(ins, iref, f, raw_out=None):
         return [Ref(q, prop + 16 * (1 + abs(x.R) + x.E * u + abs(q) + prop * u) + 1)]
     if op in ('sin', 'cos'):
         v = math.sin(a.R) if op == 'sin' else math.cos(a.R)
-        return [Ref(Fr(v), a.E + 4 + Fr(1, 4))]
+        return [Ref(Fr(v), a.E + 4 + Fr(1, 4) + (abs(a.R) + a.E * u) / 16)]
     raise KeyError(op)
 
 
@@ -953,7 +953,10 @@ def prop_bounds(ins, ivals, lf):
             bound = 16 * (1 + abs(x) + abs(r.R))
             literal = 16 * (1 + abs(x))
         elif op in ('sin', 'cos'):
-            bound = 4 + Fr(1, 1 << 10)
+            # literal clause: 4 units; the argument reduction multiplies by 1/(2 pi) rounded to f+6 fractional
+            # bits, phase error ~0.049|x| units (known finding C02-sincos-large-argument): regression bound 4+|x|/16
+            literal = 4 + Fr(1, 1 << 10)
+            bound = literal + abs(refs[0].R) / 16
         res.append((r.R * (1 << f), bound, literal))
     return res
 
@@ -1014,6 +1017,10 @@ def check_program(prog, res, lf, res_ff=None, want=('flags', 'bounds', 'forced')
                         viol.append((kind, f'instruction {idx} ({op}): result {raw}/2^{f} deviates {float(err):.6g} units from '
                                            f'the exact value {float(exact):.6g}/2^{f}, allowed {float(bound):.6g}',
                                      {'index': idx, 'output': j, 'raw': raw, 'exact': str(exact), 'bound': str(bound)}))
+                    elif literal is not None and err > literal and op in ('sin', 'cos'):
+                        viol.append(('sincos-large', f'instruction {idx} ({op}): result deviates {float(err):.6g} units from '
+                                                     f'{op}({float(ivals[idx][0][0] / (1 << f)):.6g}), literal bound 4 units',
+                                     {'index': idx, 'output': j, 'raw': raw, 'exact': str(exact), 'literal': str(literal)}))
                     elif literal is not None and err > literal:
                         viol.append(('div-small', f'instruction {idx} ({op}): quotient deviates {float(err):.6g} units, '
                                                   f'literal bound 16(1+|x|) = {float(literal):.6g}',
